@@ -1,30 +1,29 @@
 # C10 -- output encodings and argument validation shared by the search engines (pyrepseq/nn.py)
 
 @contract("pyrepseq.nn._make_output", props=["C10"], scope="triplet_lists")
-def _make_output(triplets: OneOf(Seq(TupleT(Nat, Nat, RealT(lo=0)), "list"), Seq(TupleT(Nat, Nat, RealT(lo=0)), "set", distinct_by=None)),
+def _make_output(triplets: OneOf(Seq(TupleT(Nat, Nat, RealT(lo=0)), "list"), Seq(TupleT(Nat, Nat, RealT(lo=0)), "set")),
                  output_type: OneOf(Const("triplets"), Const("coo_matrix"), Const("ndarray")),
                  seqs: Seq(Str, "list", min_len=1),
                  seqs2: OneOf(NoneType, Seq(Str, "list", min_len=1))):
     # every triplet (q, r, d) addresses a query position q and a reference position r ...
-    requires(forall(TInt, lambda t: implies(0 <= t and t < len(triplets),
-                                            triplets[t][1] < len(seqs) and triplets[t][0] < (len(seqs) if seqs2 is None else len(seqs2)))))
+    requires(forall_in(triplets, lambda t: 0 <= t[0] and 0 <= t[1] and t[1] < len(seqs)
+                       and t[0] < (len(seqs) if seqs2 is None else len(seqs2))), name="positions in range")
     # ... and, for the matrix forms, no (q, r) pair occurs twice (callers' obligation: "no entry accumulated twice")
-    requires(output_type == "triplets" or forall(TInt, TInt, lambda s, t: implies(
-        0 <= s and s < t and t < len(triplets), not (triplets[s][0] == triplets[t][0] and triplets[s][1] == triplets[t][1]))))
+    requires(output_type == "triplets" or no_duplicates(triplets, lambda t: (t[0], t[1])), name="pair-unique")
     raises(None)
     ensures(same_elements(result, triplets) and is_list(result) if output_type == "triplets" else True, name="post[triplets]")
     ensures((is_matrix(result, "coo_matrix" if output_type == "coo_matrix" else "dense_matrix")
              and mat_shape(result) == (len(seqs), len(seqs) if seqs2 is None else len(seqs2)))
             if output_type != "triplets" else True, name="post[shape]")
-    ensures(forall(TInt, lambda t: implies(0 <= t and t < len(triplets),
-                                           mat_at(result, triplets[t][1], triplets[t][0]) == triplets[t][2]))
+    ensures(forall_in(triplets, lambda t: mat_at(result, t[1], t[0]) == t[2])
             if output_type != "triplets" else True, name="post[cells]")
     ensures(forall(TInt, TInt, lambda r, q: implies(
-        forall(TInt, lambda t: implies(0 <= t and t < len(triplets), not (triplets[t][1] == r and triplets[t][0] == q))),
-        mat_at(result, r, q) == 0)) if output_type != "triplets" else True, name="post[zero elsewhere]")
-    canary(forall(TInt, lambda t: implies(0 <= t and t < len(triplets),
-                                          mat_at(result, triplets[t][0], triplets[t][1]) == triplets[t][2]))
+        forall_in(triplets, lambda t: not (t[1] == r and t[0] == q)), mat_at(result, r, q) == 0))
+        if output_type != "triplets" else True, name="post[zero elsewhere]")
+    canary(forall_in(triplets, lambda t: mat_at(result, t[0], t[1]) == t[2])
            if output_type != "triplets" else True, name="row-col-swapped")
+    # what callers may use: the result encodes exactly `triplets` in the requested form
+    returns(search_output(triplets, output_type, seqs, seqs2), assume_only=True)
 
 
 @contract("pyrepseq.nn._check_common_input", props=["C10"], scope="search_args")
